@@ -42,12 +42,16 @@ RULE = ("T3 (both tiers): one `script` case per generated class -- the real sour
         "enclosing scope of it (so its scope chain extends theirs), at module level or in a sibling function; the runtime "
         "subclass plain, attrs with repr=False (inherits the generated repr) or overriding; class-level history: nothing rendered before / an instance of every ancestor rendered first / the "
         "runtime class first; repr callables with per-field, shared (`fmt`) or functools.wraps'd `__name__`, as functions or as callable objects "
-        "that are truthy / have len 0 / bool False / a raising __bool__; tolerant callables that swallow whatever rendering "
+        "that are truthy / have len 0 / bool False / a raising __bool__; per-field options that must not influence the repr (kw_only, "
+        "eq/order/hash, converter, validator, alias, default presence) and keyword-only layers; the class's module (a synthetic "
+        "module in sys.modules while the classes are decorated) optionally binding id / getattr / AttributeError / _compat / NOTHING "
+        "to junk; tolerant callables that swallow whatever rendering "
         "their value raises (model: catch node), combined with faults below and later back-references) x fresh/warm thread x a fault "
         "(before/after rendering) in one callable x thread scenario (0, 2, 3 threads meeting at a barrier inside a callable). "
         "A structured block enumerates cycle shapes x field kinds x every callable fault position first. Non-trivial = "
         "the rendering contains a cycle marker, a fault, an unset field, a callable or a thread scenario; distinct = distinct JSON case")
 ASSUMPTIONS = [
+    "per-field options other than repr/init, keyword-only layers and the globals of the class's module are harness-only variation the model and the property are independent of; T3 additionally records what every free name of the generated __repr__ resolves to (builtin bound in the globals / attr._compat / attr.NOTHING / unpinned / foreign) and the model generator predicts it (C11_free_names_pinned ties the names to the T1 list of pinned globals)",
     "T3: the parser harness/c11_ir.py (ast -> IR, strict: unknown forms stay `unknown`) and the description each instrumented callable carries of itself (`spec`, read back through the generated function's __globals__) are trusted; `execScript` gives the IR its meaning in Lean",
     "a rendering that does not come back within 10 s is observed as `exc timeout` (non-termination) and its thread is cancelled",
     "class-level history (which classes of the chain rendered an instance earlier) and the `__name__` of the repr callables are harness-only variation: the model and the property are independent of both; the history is applied when a class is built (cache key contains it) so a replay in a fresh process sees the same history",
@@ -258,7 +262,44 @@ def _ib(f, cfg, cbs):
         kw["init"] = False
         if f["name"] in cfg.get("dflt", []):
             kw["default"] = None
+    # per-field options that must not influence the repr (order, presence, rendering): harness-only variation
+    o = cfg.get("fopts", {}).get(f["name"], {})
+    if o.get("kw_only"):
+        kw["kw_only"] = True
+    if o.get("eq") is False:
+        kw["eq"] = False
+    elif o.get("order") is False:
+        kw["order"] = False
+    if o.get("hash") is False:
+        kw["hash"] = False
+    if o.get("conv"):
+        kw["converter"] = _identity
+    if o.get("val"):
+        kw["validator"] = _accept
+    if o.get("alias"):
+        kw["alias"] = "al_" + f["name"]
+    if f["init"] and o.get("default"):
+        kw["default"] = None
     return attr.ib(**kw)
+
+
+def _identity(v):
+    return v
+
+
+def _accept(inst, a, v):
+    return None
+
+
+# module-level names of the class's module that the generated __repr__ must not pick up
+_MOD_JUNK = {
+    "id": lambda: (lambda x: 0),
+    "getattr": lambda: (lambda a, b: None),
+    "AttributeError": lambda: type("AttributeError", (Exception,), {}),
+    "_compat": lambda: object(),
+    "NOTHING": lambda: "junk",
+}
+_MOD_COUNTER = [0]
 
 
 def qualname_of(cls_spec):
@@ -346,6 +387,8 @@ def build_class(cs, occurrence=0):
             kw["str"] = True
         if i == n - 1 and cs["reprNs"] is not None:
             kw["repr_ns"] = cs["reprNs"]
+        if i in cfg.get("kwOnlyLayers", []):
+            kw["kw_only"] = True
         d = _DECOS[api]
 
         def deco(c):
@@ -357,7 +400,15 @@ def build_class(cs, occurrence=0):
     # the whole chain is written as class statements; the runtime class sits inside all of `scopes`, its ancestors
     # at `base_depth` (same scope / an enclosing scope / module level / a sibling function)
     reg = {}
-    glob = {"_root": PlainRoot if cs["plainStr"] else object, "__name__": "c11_synthetic", "_reg": reg}
+    # the classes live in a synthetic module that is in sys.modules while they are decorated (attrs merges the
+    # module's globals into the globals of the generated methods) and that may bind names the generated code uses
+    _MOD_COUNTER[0] += 1
+    modname = f"c11_synthetic_{_MOD_COUNTER[0]}"
+    module = types.ModuleType(modname)
+    glob = module.__dict__
+    glob.update({"_root": PlainRoot if cs["plainStr"] else object, "_reg": reg})
+    for nm in cfg.get("modGlobals", []):
+        glob[nm] = _MOD_JUNK[nm]()
 
     def registering(d):
         def deco(c):
@@ -394,7 +445,11 @@ def build_class(cs, occurrence=0):
         src = _nested_source(cs["scopes"], {nsc: stmts}, [], cs["name"])
     else:
         src = _nested_source(cs["scopes"], {depth: stmts[:-1], nsc: stmts[-1:]}, [], cs["name"])
-    exec(compile("\n".join(src), "<c11 class>", "exec"), glob)  # noqa: S102
+    sys.modules[modname] = module
+    try:
+        exec(compile("\n".join(src), "<c11 class>", "exec"), glob)  # noqa: S102
+    finally:
+        sys.modules.pop(modname, None)
     cls = glob["_result"]
     if cls.__qualname__ != qualname_of(cs):
         raise RuntimeError(f"harness: qualname {cls.__qualname__!r} != {qualname_of(cs)!r}")
@@ -415,7 +470,7 @@ def _pre_history(cls, pre):
     order = chain if pre == "bases_first" else [chain[-1]] + chain[:-1]
     for k in order:
         try:
-            repr(k(**{a.name: None for a in attr.fields(k) if a.init}))
+            repr(k(**{a.alias: None for a in attr.fields(k) if a.init}))
         except Exception:  # noqa: BLE001, S110 -- the history must never fail the build
             pass
 
@@ -451,7 +506,8 @@ def build_heap(heap):
             objs[i] = {}
         elif k == "inst":
             cs = heap["classes"][nd["inst"]["cls"]]
-            objs[i] = classes[nd["inst"]["cls"]](**{f["name"]: None for f in all_fields(cs) if f["init"]})
+            k_ = classes[nd["inst"]["cls"]]
+            objs[i] = k_(**{a.alias: None for a in attr.fields(k_) if a.init})
     # a tuple may hold tuples with smaller ids only (wf), so they exist when it is built
     for i, nd in enumerate(nodes):
         if _kind(nd) == "tuple":
@@ -615,9 +671,9 @@ def observe_script(case):
     except RuntimeError as e:
         if str(e).startswith("harness:"):
             raise
-        return {"script": {"body": [{"unknown": {"src": "class could not be built: " + common.exc_kind(e)}}], "globs": []}}
+        return {"script": {"body": [{"unknown": {"src": "class could not be built: " + common.exc_kind(e)}}], "globs": [], "free": []}}
     except Exception as e:  # noqa: BLE001
-        return {"script": {"body": [{"unknown": {"src": "class could not be built: " + common.exc_kind(e)}}], "globs": []}}
+        return {"script": {"body": [{"unknown": {"src": "class could not be built: " + common.exc_kind(e)}}], "globs": [], "free": []}}
     for f in all_fields(cs):
         if isinstance(f["repr"], dict):
             cbs[f["name"]].fault = f["repr"]["call"]["fault"]
@@ -673,7 +729,8 @@ SCOPES = [
 ]
 CLS_NAMES = ["C", "D", "Node", "Pt"]
 BASE_CFG = {"api": "attr.s", "slots": None, "frozen": False, "plainSub": False, "strAt": 9, "dflt": [], "explicit_true": False,
-            "pre": "none", "cbNames": "field", "basePlace": "same", "subKind": "plain", "cbObj": "func"}
+            "pre": "none", "cbNames": "field", "basePlace": "same", "subKind": "plain", "cbObj": "func",
+            "fopts": {}, "kwOnlyLayers": [], "modGlobals": []}
 
 
 def rand_cfg(rng, names):
@@ -690,7 +747,23 @@ def rand_cfg(rng, names):
         "basePlace": rng.choice(["same", "same", "same", "module", "sibling", 0, 1, 1, 2, 2]),
         "subKind": rng.choice(["plain", "plain", "norepr"]),
         "cbObj": rng.choice(["func", "func", "func", "truthy", "len0", "boolF", "boolRaise"]),
+        "fopts": rand_fopts(rng, names),
+        "kwOnlyLayers": [i for i in range(3) if rng.random() < 0.15],
+        "modGlobals": [nm for nm in sorted(_MOD_JUNK) if rng.random() < 0.2],
     }
+
+
+def rand_fopts(rng, names):
+    """options of a field that have nothing to do with its repr; defaults from a cut index on, so that no mandatory
+    field follows a defaulted one whatever ends up keyword-only"""
+    cut = rng.choice([0, 1, 2, 3, 9, 9, 9])
+    out = {}
+    for i, n in enumerate(names):
+        eq = rng.random() < 0.85
+        out[n] = {"kw_only": rng.random() < 0.3, "eq": eq, "order": (rng.random() < 0.8) if eq else False,
+                  "hash": rng.random() < 0.85, "conv": rng.random() < 0.2, "val": rng.random() < 0.2,
+                  "alias": rng.random() < 0.15, "default": i >= cut}
+    return out
 
 
 def rand_repr(rng, name, fault="no"):
@@ -959,7 +1032,9 @@ def dist(case, obs):
         sc = obs.get("script", {}) if isinstance(obs, dict) else {}
         cs = case["cls"]
         return {"kind": "script", "script_fields": len(all_fields(cs)), "script_helpers": len(sc.get("globs", [])),
-                "script_unknown": _count_unknown(sc.get("body", [])), "script_ns": cs["reprNs"] is not None,
+                "script_unknown": _count_unknown(sc.get("body", [])),
+                "script_free": ",".join(f"{n}={b}" for n, b in sc.get("free", []) if b not in ("builtin", "attr._compat", "attr.NOTHING")) or "all pinned",
+                "script_mod_globals": len(cs.get("cfg", {}).get("modGlobals", [])), "script_ns": cs["reprNs"] is not None,
                 "script_owner": "inherited" if (cs.get("cfg", {}).get("plainSub") or cs["ovr"]) else "own"}
     heap = case["heap"]
     kinds = [_kind(n) for n in heap["nodes"]]
